@@ -16,15 +16,17 @@ CONTRACTS = {
         'assumed': 'sampler contract: exactly m clauses over variables 1..n without zero literal, or ValueError; decided by the bounded tier of C13',
         'params': {'k': 'int', 'n': 'int', 'm': 'int', 'planted_assignments': 'any'},
         'requires': ['0 <= k', 'k <= n', 'm >= 0'],
-        'raises': {'ValueError': None},
+        # sparse sampling only ever collects distinct compatible clauses, the dense fallback refuses iff fewer than m exist
+        'raises': {'ValueError': 'm > navail_p(k, n)'},
         'returns': 'cseq',
         'ensures': ['clen(result) == m', 'cmaxabs(result) <= n', 'not chaszero(result)'],
     },
     (R, 'RandomKCNF'): {
         'property': ['C13', 'C10'],
         'params': {'k': 'int', 'n': 'int', 'm': 'int', 'seed': 'none', 'planted_assignments': 'any', 'formula_class': 'class:CNF'},
-        # negative arguments and k > n are refused; otherwise only the sampler may refuse (too many clauses requested)
-        'raises': {'ValueError': None},
+        # C13: "fails with a ValueError exactly when k exceeds n or m exceeds the number of clauses compatible with the
+        # planted assignments, and never otherwise" (negative arguments are refused as documented)
+        'raises': {'ValueError': 'n < 0 or m < 0 or k < 0 or k > n or m > navail_p(k, n)'},
         'tags': {},
         'loops': {0: {'ghost_at_entry': {'S': '_iter'},
                       'inv': ['F._clauses == ctake(S, _it)', 'F._numvar == n', 'n >= 0', 'cmaxabs(S) <= n', 'not chaszero(S)', 'clen(S) == m'],
